@@ -116,6 +116,7 @@ def edge(rng):
     if r < 0.95:
         # wildcard / infinity shapes
         parts = [pick(rng, [b"1", b"0", b"*", INF, b"2", b"1*", b"*1", b"1" + INF]) for _ in range(rng.randrange(1, 6))]
-        return b".".join(parts) + pick(rng, [b"", b"", b"a1", b".post1", b".dev0", b"+x", b".", b".*"])
+        ep = pick(rng, [b"", b"", b"01!", b"00!", b"1!", b"12!", b"001!"])
+        return ep + b".".join(parts) + pick(rng, [b"", b"", b"a1", b".post1", b".dev0", b"+x", b".", b".*"])
     # very long release
     return b".".join([b"1"] * rng.choice([40, 400, 33000])) + pick(rng, [b"", b"a1"])
